@@ -39,6 +39,8 @@ CASES = {
     # the second source is entered as magnitude and phase in degrees (any sign of the magnitude), the first as a complex voltage
     'src-mag-phase': ('G2', None, 'imp', '9'),
     'src-mag-phase-gnd': ('G9', 'ideal', 'none', '12'),
+    # a grounded end whose height is a rounding residue (0.3 - 0.1 - 0.2): BASIC grounds an end only when its Z is read as exactly 0
+    'gnd-residue': ('G23', 'ideal', 'imp', '9'),
 }
 
 
@@ -327,7 +329,7 @@ def replay_basic(mm, case, P):
 def main(args):
     ck = Check('C18', args)
     ck.shadow_stats = symx.load().stats
-    names = ['free-imp', 'gnd-ideal', 'lap-v9', 'lap-v12', 'media2', 'taper', 'arc', 'wire+arc-fuzzy', 'taper-skin', 'taper-coat', 'media2-circ-norad', 'media2-linear', 'src-mag-phase', 'src-mag-phase-gnd'] if ck.tier == 'quick' else list(CASES)
+    names = ['free-imp', 'gnd-ideal', 'lap-v9', 'lap-v12', 'media2', 'taper', 'arc', 'wire+arc-fuzzy', 'taper-skin', 'taper-coat', 'media2-circ-norad', 'media2-linear', 'src-mag-phase', 'src-mag-phase-gnd', 'gnd-residue'] if ck.tier == 'quick' else list(CASES)
     run_parallel(ck, 'checks.c18', [('basic_input', (n,)) for n in names])
     ck.assumptions += ['%g/%.12g conversions read back exactly in this check (their 6-digit precision is what "to the precision of the '
                        'printed parameters" allows; the check is about units, order and content)',
